@@ -351,6 +351,38 @@ def c06(ctx):
     ctx.coverage['memo_pairs_compared'] = sw['stats'].get('memo_pairs', 0)
 
 
+def c02_shipped(ctx):
+    """The decidable hypotheses of C01_wellformed and C02_switch_same_as_default evaluated on the SHIPPED grammars (the property's
+    quantifier names them): where they hold, the theorems apply to the parser peg generates for that grammar (tied by T-emit)."""
+    T = ctx.T()
+    import lifecycle as LC
+    names = ['peg', 'calculator', 'calculatorast', 'fexl', 'long'] + (['c', 'java'] if ctx.tier == 'thorough' else [])
+    reqs = []
+    for name, path, support, _ in LC.SHIPPED:
+        if name in names:
+            for o in ('', 's'):
+                reqs.append({'id': '%s_%s' % (name, o or 'd'), 'text': open(os.path.join(L.REPO, path)).read(), 'opts': o, 'tree': True, 'compile': True, 'ir': True, 'name': name})
+    real = T.run_pegx_parallel(reqs, timeout=600)
+    mreqs = [{'id': r['id'], 'tree': x['tree'], 'opts': r['opts']} for r, x in zip(reqs, real) if x.get('tree')]
+    model = {m['id']: m for m in T.run_model('emit', mreqs, jobs=len(mreqs))}
+    out = {}
+    for r, x in zip(reqs, real):
+        m = model.get(r['id']) or {}
+        h = m.get('hyps') or {}
+        base = all(h.get(k) for k in ('wfb', 'grammarOK', 'linkedOK', 'plain'))
+        out[r['id']] = {'default_theorem_hypotheses': base, 'switchSafe': h.get('switchSafe'), 'rewritten': h.get('rewritten')} if r['opts'] else {'default_theorem_hypotheses': base}
+        if x.get('ir') and m.get('rules') is not None:
+            d = L.ir_diff(x['ir'], m) or L.header_diff(x['ir']['header'], m.get('header'), r['opts'])
+            out[r['id']]['T_emit_equal'] = d is None
+            if d:
+                ctx.add('model', 'T-emit/shipped', 'emitted program for the shipped grammar %s (opts "%s") differs from the model generator: %s' % (r['name'], r['opts'], d[:300]),
+                        {'grammar_file': r['name'], 'opts': r['opts'], 'diff': d})
+        if not base or (r['opts'] == 's' and h.get('switchSafe') is False):
+            ctx.add('model', 'switchSafe' if base else 'hypotheses', 'the decidable hypotheses of the end-to-end theorem fail on the shipped grammar %s (opts "%s"): %s' % (r['name'], r['opts'], h),
+                    {'grammar_file': r['name'], 'opts': r['opts'], 'hyps': h})
+    ctx.coverage['shipped_grammars_theorem_hypotheses'] = out
+
+
 def c07(ctx):
     ctx.proofs(['PegVerif.Props.C07', 'PegVerif.Props.C07Switch', 'PegVerif.Props.C07Inline'])
     sw, by = core(ctx, ['n', 'in'], ['v', 'trace'], cross='opts',
@@ -399,6 +431,7 @@ def c02(ctx):
     sw2, by2 = core(ctx, ['s', 'is'], ['v', 'toks'], cross='opts', sweep='switch',
                     note='-switch and -inline -switch on switch-shaped grammars (>= 3-way choices with nullable, lookahead-first, range-first, nested alternatives).')
     ctx.coverage['distinct_nontrivial'] = n1 + by2.get('s', {}).get('ok', 0) + by2.get('is', {}).get('ok', 0)
+    c02_shipped(ctx)
 
 
 def go_tool(ctx, name):
